@@ -291,10 +291,10 @@ func (e *Exec) conv(dst, src types.Type, x Value) Value {
 			case Str:
 				return v
 			case *Term: // rune/int -> string
-				if !v.IsConst() {
-					e.cut("unsupported-symbolic:rune->string")
+				if v.IsConst() {
+					return Str{s: string(rune(sx(v.W, v.V)))}
 				}
-				return Str{s: string(rune(sx(v.W, v.V)))}
+				return e.encodeRune(v)
 			case Slice:
 				if sl, ok := us.(*types.Slice); ok {
 					eb := sl.Elem().Underlying().(*types.Basic)
@@ -306,15 +306,11 @@ func (e *Exec) conv(dst, src types.Type, x Value) Value {
 						return mkStr(b)
 					}
 					// []rune
-					rs := make([]rune, len(v.v))
-					for i := range rs {
-						t := v.v[i].(*Term)
-						if !t.IsConst() {
-							e.cut("unsupported-symbolic:[]rune->string")
-						}
-						rs[i] = rune(sx(32, t.V))
+					out := Str{}
+					for i := range v.v {
+						out = concat(out, e.encodeRune(v.v[i].(*Term)))
 					}
-					return Str{s: string(rs)}
+					return out
 				}
 			}
 		}
